@@ -599,6 +599,43 @@ def closure_wrap(tree, fname, names):
     return ast.Module(body=[wrap], type_ignores=[])
 
 
+class _Mangler(ast.NodeTransformer):
+    """Private name mangling, as the compiler applies it inside a class."""
+
+    def __init__(self, clsname):
+        self.prefix = "_" + clsname.lstrip("_")
+        self.active = bool(clsname.strip("_"))
+
+    def mangle(self, name):
+        if (
+            self.active
+            and isinstance(name, str)
+            and name.startswith("__")
+            and not name.endswith("__")
+            and "." not in name
+        ):
+            return self.prefix + name
+        return name
+
+    def visit_Name(self, node):
+        node.id = self.mangle(node.id)
+        return node
+
+    def visit_Attribute(self, node):
+        self.generic_visit(node)
+        node.attr = self.mangle(node.attr)
+        return node
+
+    def visit_arg(self, node):
+        node.arg = self.mangle(node.arg)
+        return node
+
+    def visit_keyword(self, node):
+        self.generic_visit(node)
+        node.arg = self.mangle(node.arg)
+        return node
+
+
 def recode(fn, ovld, recurse_sym, call_next_sym, newname, slot=None):
     ovld_mangled = f"___OVLD{ovld.id}"
     map_mangled = f"___MAP{ovld.id}"
@@ -627,6 +664,11 @@ def recode(fn, ovld, recurse_sym, call_next_sym, newname, slot=None):
         shift = -1
     else:
         tree = ast.parse(src)
+    qualparts = fn.__qualname__.split(".")
+    if len(qualparts) >= 2 and qualparts[-2] != "<locals>":
+        # A method of a class: its private names (self.__x) were mangled by
+        # the compiler of the class body, which is not there any more
+        tree = _Mangler(qualparts[-2]).visit(tree)
     new = NameConverter(
         anal=ovld.argument_analysis,
         recurse_sym=recurse_sym,
